@@ -110,7 +110,11 @@ func NewEngine(be Backend, extra []ref.FunSig) *Engine {
 		en.E.EnableDebug(io.Discard)
 	}
 	for _, f := range extra {
-		fv := MakeHarnessFun(f, en.Tr)
+		fv, again := en.Funs[f.Impl]
+		if !again {
+			// a signature listed twice is ONE function value registered twice
+			fv = MakeHarnessFun(f, en.Tr)
+		}
 		en.Funs[f.Impl] = fv
 		en.regOrder = append(en.regOrder, f.Impl)
 		en.E.RegisterFun(fv)
